@@ -315,6 +315,13 @@ func (ps *parser) typeExpr() TypeExpr {
 	if t.kind != "id" {
 		ps.fail("expected type, got %q", t.s)
 	}
+	if t.s == "Array" && ps.isOp("[") {
+		ps.expectOp("[")
+		k := ps.typeExpr()
+		ps.expectOp("]")
+		v := ps.typeExpr()
+		return TypeExpr{Kind: "array", Key: &k, Elem: &v}
+	}
 	if t.s == "map" {
 		ps.expectOp("[")
 		k := ps.typeExpr()
